@@ -738,3 +738,8 @@ for _b in ("C02", "C03", "C06", "C07", "C08", "C11", "C13", "C14", "C15", "C16",
         _p = f"C{_i:02d}"
         VARIANTS.append({"prop": _p, "id": f"{_p}:r13-repaired-refactor-{_b}", "expect": "U" if (_b, _p) in _R13_UNDECIDED else "S", "rule": "", "edits": [],
                          "patchfile": _os.path.join(_BP, f"r13-{_b}.diff")})
+for _b in ("C01", "C04", "C05", "C09", "C10"):
+    for _i in range(1, 21):
+        _p = f"C{_i:02d}"
+        VARIANTS.append({"prop": _p, "id": f"{_p}:r13-repaired-refactor-{_b}", "expect": "N", "rule": "", "edits": [],
+                         "patchfile": _os.path.join(_BP, f"r13-{_b}.diff")})
